@@ -729,12 +729,12 @@ func (ss *sess) config(n int, moves int, allKinds bool) {
 	c := &cfg{n: n, objs: map[string]pos{}}
 	c.r = math.Round(30 * math.Pow(8000.0/30, rng.Float64()))
 	c.centre = pos{r7(rng.Float64()*130 - 65), r7(rng.Float64()*340 - 170)}
-	c.pattern = []string{"*", "*", "a*", "a[0-4]*", "b*", "a1"}[rng.Intn(6)]
+	c.pattern = []string{"*", "*", "a*", "a[0-4]*", "b*", "a1", "a[0-4]", "[ab]?"}[rng.Intn(8)]
 	c.nodwell = rng.Intn(2) == 0
 	switch c.pattern {
 	case "b*":
 		c.anchorID = "b" + mkMark
-	case "a1":
+	case "a1", "a[0-4]", "[ab]?": // no marker id matches: channel delivery only
 	default:
 		c.anchorID = "a" + mkMark
 	}
@@ -789,7 +789,7 @@ func (ss *sess) config(n int, moves int, allKinds bool) {
 
 // Run is the C20 check.
 func Run(ctx *core.Ctx) {
-	ctx.Rule = "configurations: radius 30 m..8 km (log-uniform), centre |lat| <= 65, swarm of 3-40 point objects ids a*/b*, pattern in {*, a*, a[0-4]*, b*, exact id}, NODWELL on/off, delivery = channel (always) + webhook + live (sample in quick, always in thorough, when the pattern admits a marker anchor). Every object placement and every move is one judged SET; the new position is generated relative to a random other object: inside (0.05-0.95 r), just inside (0.990-0.998 r), just outside (1.002-1.010 r), in a corner of the search rectangle (|dx|,|dy| in 0.75-0.97 r => 1.06-1.37 r), far (2-6 r); one move in ten is a re-SET at the identical position; pairs within |d/r-1| < 1.5e-3 are never generated. Oracle per neighbour: nearby/faraway/none from haversine (R=6371e3) of old and new position, NODWELL, pattern; meters within 1e-6 rel + 1 mm; neighbour and moved object payloads equal the current positions. non-trivial = a move with >= 1 other object inside the old or new search rectangle; distinct key = (multiset of neighbour geometry classes with count buckets, NODWELL, pattern, delivery kind)"
+	ctx.Rule = "configurations: radius 30 m..8 km (log-uniform), centre |lat| <= 65, swarm of 3-40 point objects ids a*/b*, pattern in {*, a*, a[0-4]*, b*, exact id, class-only a[0-4], [ab]?}, NODWELL on/off, delivery = channel (always) + webhook + live (sample in quick, always in thorough, when the pattern admits a marker anchor). Every object placement and every move is one judged SET; the new position is generated relative to a random other object: inside (0.05-0.95 r), just inside (0.990-0.998 r), just outside (1.002-1.010 r), in a corner of the search rectangle (|dx|,|dy| in 0.75-0.97 r => 1.06-1.37 r), far (2-6 r); one move in ten is a re-SET at the identical position; pairs within |d/r-1| < 1.5e-3 are never generated. Oracle per neighbour: nearby/faraway/none from haversine (R=6371e3) of old and new position, NODWELL, pattern; meters within 1e-6 rel + 1 mm; neighbour and moved object payloads equal the current positions. non-trivial = a move with >= 1 other object inside the old or new search rectangle; distinct key = (multiset of neighbour geometry classes with count buckets, NODWELL, pattern, delivery kind)"
 	ctx.Assumptions = []string{
 		"only point objects; only SET moves (FSET/DEL on a roaming fence are outside the statement; their messages are ignored)",
 		"a neighbour that is inside the search rectangle but outside the circle (now or before the move) and gets a wrong outcome is reported under roam:radius-not-applied; every other neighbour is judged strictly",
